@@ -243,6 +243,21 @@ func runInventory(c *Ctx, idPrefix string, roots []*ssa.Function, reasoned map[s
 			}, 3) {
 				return e.key
 			}
+			// the listed closure F$n became a method whose value is made only in F (state moved from the closure into
+			// an object, the method value handed to the same place)
+			if i := strings.LastIndex(e.fn, "$"); i > 0 && s.Fn.Parent() == nil {
+				parent := e.fn[:i]
+				makers := P.MethodValueMakers(s.Fn)
+				all := len(makers) > 0
+				for _, m := range makers {
+					if FuncKey(m) != parent {
+						all = false
+					}
+				}
+				if all {
+					return e.key
+				}
+			}
 			// a reason about what a package is handed (the config pointer the registry passes to the decoding closure)
 			// holds wherever in that package the same expression is evaluated
 			if s.Kind == "niltype" && pkgOfFuncKey(e.fn) == pkgOfFuncKey(FuncKey(s.Fn)) {
